@@ -245,11 +245,18 @@ func init() {
 					bigJobs = append(bigJobs, job{t, root{C, 1, 3, 0}}, job{t, root{C, 3, 3, 0}})
 				}
 			}
+			for _, C := range []int{1 << 15, 1<<16 - 1, 1 << 16, 1<<16 + 1, 1 << 17, 1<<17 + 1, 1 << 18} { // very many channels (powers of two and neighbours)
+				bigJobs = append(bigJobs, job{dyn.Int8, root{C, 1, 4, 0}})
+			}
 			c.ParallelFor(len(bigJobs), func(i int) {
 				j := bigJobs[i]
 				K := j.r.K
 				var n int64
+				light := j.r.C >= 1<<15 // very wide frames: a handful of ranges, no nesting
 				pts := func(cp int) []int {
+					if light {
+						return []int{0, 1, cp - 1, cp, cp + 1}
+					}
 					return []int{-1, 0, 1, 2, cp / 2, cp - 1, cp, cp + 1, math.MaxInt/j.r.C + 1, math.MinInt}
 				}
 				for _, s := range pts(K) {
@@ -258,7 +265,7 @@ func init() {
 						fs := c02Run(cs)
 						c.Check(cs, true, fs)
 						n++
-						if s >= 0 && s <= e && e <= K && len(fs) == 0 {
+						if s >= 0 && s <= e && e <= K && len(fs) == 0 && !light {
 							for _, s2 := range pts(K - s) {
 								for _, e2 := range pts(K - s) {
 									cs2 := cs
@@ -319,9 +326,25 @@ func init() {
 					c.Check(cs2, true, c02Run(cs2))
 				}
 			}
+			// parents of more than 2^24 samples (beyond what single-precision arithmetic and 24-bit fields hold
+			// exactly), windows at the head, in the middle and in the last frames;
+			huge := []struct{ C, K int }{{1, 1<<24 + 5}, {2, 1<<23 + 3}, {3, (1<<24)/3 + 7}}
+			c.ParallelFor(len(huge), func(i int) {
+				g := huge[i]
+				K := g.K
+				for _, se := range [][2]int{{K - 4, K}, {K - 900, K - 896}, {100, 104}, {K, K}} {
+					cs := c02Case{Type: "int8", C: g.C, L: K, K: K, S: se[0], E: se[1]}
+					c.Check(cs, true, c02Run(cs))
+					if c.Expired() {
+						return
+					}
+				}
+				cs2 := c02Case{Type: "int8", C: g.C, L: K, K: K, Path: [][2]int{{7, K}}, S: K - 7 - 3, E: K - 7}
+				c.Check(cs2, true, c02Run(cs2))
+			})
 			c.Sample(c02Case{Type: "int8", C: 4, L: 1, K: 2, R: 0, S: 0, E: 1<<62 + 1})
 			c.Sample(c02Case{Type: "float32", C: 2, L: 1, K: 3, R: 1, Path: [][2]int{{1, 2}}, S: 0, E: 2})
-			c.Set("rule", fmt.Sprintf("13 element types x C in 1..4 x roots Alloc(C,L,K<=%d) incl. partly filled last frames x nested valid slicings to depth %d x every (start,end) in ([-2,cap+2] + MinInt, MinInt+1, -2^62, MaxInt/C-1..+1, MaxInt-1, MaxInt, and every x with C*x wrapping mod 2^64 to 0..cap+1)^2; each (root, path, start, end) is enumerated once (distinct by construction) and every one is non-trivial (either a view whose aliasing is checked cell by cell, or a range that must panic); plus sparse ranges on roots of 17, 100, 1200 frames and of 9-65 channels, 400 windows of one parent kept alive and re-inspected, and small windows of a 1.2-million-sample parent", maxK, maxDepth))
+			c.Set("rule", fmt.Sprintf("13 element types x C in 1..4 x roots Alloc(C,L,K<=%d) incl. partly filled last frames x nested valid slicings to depth %d x every (start,end) in ([-2,cap+2] + MinInt, MinInt+1, -2^62, MaxInt/C-1..+1, MaxInt-1, MaxInt, and every x with C*x wrapping mod 2^64 to 0..cap+1)^2; each (root, path, start, end) is enumerated once (distinct by construction) and every one is non-trivial (either a view whose aliasing is checked cell by cell, or a range that must panic); plus sparse ranges on roots of 17, 100, 1200 frames and of 9-65 channels, 400 windows of one parent kept alive and re-inspected, small windows of a 1.2-million-sample parent, windows (head, middle, last frames) of parents of 2^24+5, 2*(2^23+3) and 3*(2^24/3+7) samples, and 2^15..2^18 channels (powers of two and neighbours)", maxK, maxDepth))
 			c.Assume("the storage is observed through root.Slice(0,K); a Slice broken so that this observer is not an alias makes the alias checks fail rather than pass", "linux/amd64, 64-bit int")
 		},
 		RunCase: func(c *core.Ctx, raw json.RawMessage) []F { return c02Run(decode[c02Case](raw)) },
